@@ -78,6 +78,9 @@ func (p Ether) EtherType() uint16     { return binary.BigEndian.Uint16(p[12:14])
 
 // SrcIP i a convenience function to return the source IP address. It returns nil if no IP packet is present.
 func (p Ether) SrcIP() netip.Addr {
+	if len(p) <= p.HeaderLen() { // no payload inside the frame: Payload() would expose the spare capacity
+		return netip.Addr{}
+	}
 	switch p.EtherType() {
 	case syscall.ETH_P_IP:
 		if ip := IP4(p.Payload()); ip.IsValid() == nil {
@@ -93,6 +96,9 @@ func (p Ether) SrcIP() netip.Addr {
 
 // DspIP i a convenience function to return the destination IP address. It returns nil if no IP packet is present.
 func (p Ether) DstIP() netip.Addr {
+	if len(p) <= p.HeaderLen() { // no payload inside the frame: Payload() would expose the spare capacity
+		return netip.Addr{}
+	}
 	switch p.EtherType() {
 	case syscall.ETH_P_IP:
 		if ip := IP4(p.Payload()); ip.IsValid() == nil {
